@@ -219,8 +219,8 @@ class Run(RunBase):
         shape = build.build_shape(shape_spec) if shape is None else shape
         raw = geom.raw_shape(shape)
         self._check_shape_semantics(shape, raw)
-        if raw["t"] == "group" or (self.route == "empty" and not self.present):
-            return  # find_lanelet_by_shape accepts Rectangle / Circle / Polygon only
+        if self.route == "empty" and not self.present:
+            return  # a network on which no construction route ran yet has no index at all
         try:
             got_raw = self.net.find_lanelet_by_shape(shape)
             got = list(got_raw)
@@ -367,6 +367,26 @@ class Run(RunBase):
             self._check_shape({"t": "rect", "l": 2.0, "w": 1.0, "c": [float(m[0]), float(m[1])], "o": 0.4}, polys)
             self._check_shape({"t": "circ", "r": 1.0, "c": [float(m[0]), float(m[1])]}, polys)
             self._check_shape({"t": "circ", "r": 6.0, "c": [float(c[-1][0]), float(c[-1][1])]}, polys)
+        # bounding-box decoys: a group one of whose members lies inside a lanelet's bounding box but off the lanelet
+        # (near the bbox corner farthest from it), the other member on the lanelet - in both orders.  What a pre-filter
+        # on bounding boxes concluded for one member says nothing about the others.
+        for la in self.net.lanelets[:3]:
+            poly, _ = polys[la.lanelet_id]
+            x0, y0, x1, y1 = poly.bounds
+            cx, cy = (x0 + x1) / 2, (y0 + y1) / 2
+            corners = [(x, y) for x in (x0, x1) for y in (y0, y1)]
+            far = max(corners, key=lambda q: poly.distance(geom.SPoint(q)))
+            if poly.distance(geom.SPoint(far)) < 1.0:
+                continue
+            self.probe("bounding-box-decoy-group")
+            d = {"t": "rect", "l": 0.4, "w": 0.4, "o": 0.0,
+                 "c": [far[0] + 0.3 * (1 if cx > far[0] else -1), far[1] + 0.3 * (1 if cy > far[1] else -1)]}
+            c = la.center_vertices
+            m = (c[0] + c[1]) / 2
+            on = {"t": "rect", "l": 0.8, "w": 0.5, "o": 0.2, "c": [float(m[0]), float(m[1])]}
+            self._check_shape({"t": "group", "shapes": [d, on]}, polys)
+            self._check_shape({"t": "group", "shapes": [on, d]}, polys)
+            self._check_shape(d, polys)
         self._check_obstacles(polys)
 
     # ------------------------------------------------------------------ ops
@@ -822,7 +842,7 @@ class C06(Property):
                        "candidate-list-with-repeated-obstacle-id", "fork-keeps-original",
                        "continued-on-the-other-copy", "lattice-point-exactly-on-a-lanelet-border",
                        "lattice-shape-exactly-tangent-to-a-lanelet", "bystander-draw", "bystander-derive",
-                       "second-network-with-other-lanelet-ids", "route:Scenario.add_objects([.., refused])"]
+                       "second-network-with-other-lanelet-ids", "route:Scenario.add_objects([.., refused])", "bounding-box-decoy-group"]
     assumptions = [
         "geometric truth comes from crkit.geom (raw vertices / parameters, shapely predicates on geometry built there) "
         "with a don't-care band: clearance or penetration below 1e-7, and for circles distances in [0.99 r, r] "
